@@ -3,7 +3,7 @@
    scalar coercions (type_conv.as_int/as_bool/as_str, float()), tokens through the
    stdlib oracles, Enum by value, IterableParser, TupleParser (arity window),
    VariadicTupleParser, MappingParser/DefaultDictParser, OptionalParser, UnionParser
-   (None passes, exact-type membership scan, then tag dispatch), LiteralParser
+   (None passes when None is a member, exact-type membership scan, then tag dispatch), LiteralParser
    (value then type), NamedTupleParser, TypedDictParser (required keys), and the
    generated cls_fromdict (key resolution: alias table, exact name, to_snake_case
    case-insensitive; tag key ignored; unknown keys ignored; defaults; MissingFields).
@@ -546,8 +546,9 @@ Fixpoint load (t : ty) (j : pv) {struct t} : res pv :=
       end
   | TOptional t' => match j with VNone => Ok VNone | _ => load t' j end
   | TUnion ts =>
+      (* `if o is None and NoneType in self.base_type: return o` *)
       match j with
-      | VNone => Ok VNone
+      | VNone => if existsb is_tnone ts then Ok VNone else union_scan load j ts ts
       | _ => union_scan load j ts ts
       end
   | TLiteral vs => load_literal vs j
